@@ -97,6 +97,8 @@ INFO = {
  'C15-m6': ("assignability narrowed to 'identical type, or implements the interface'", 'a value and element type that are assignable by the other rules: named/unnamed with the same underlying type, bidirectional to directional channel'),
  'C16-m5': ('ConflatedContext skips inputs whose Done() is nil', 'a never-cancellable input (context.Background) next to inputs that get cancelled: the result is cancelled although an input is live forever'),
  'C16-m6': ("CombineContext folds a deadline-bearing other into WithDeadline instead of registering a callback", 'an other that carries a deadline and is cancelled early (defer cancel / cancelled parent): the result stays live until the deadline'),
+ 'C18-m5': ("the per-iteration cancellation check returns context.Cause(ctx) instead of ctx.Err()", 'a context cancelled with a custom cause (WithCancelCause / WithTimeoutCause, or a child of one): the cause is returned instead of the context\'s error'),
+ 'C18-m6': ("a fail-fast before the wait: gives up with DeadlineExceeded when the drawn delay exceeds the time left", 'a context that carries a deadline and a drawn delay longer than the time left: returns while the context is not cancelled, skipping calls that would still have been made'),
 
 }
 
